@@ -154,7 +154,7 @@ pub fn run_c15(ctx: &RunCtx) {
         ctx.merge_stats(st);
     }
     // random sequences, two layouts each
-    let n = ctx.pick(300_000u64, 30_000_000u64);
+    let n = ctx.pick(1_000_000u64, 30_000_000u64);
     ctx.random("sequence", n, 700, |src| {
         let seq = gen_sequence(src, 40);
         let mut rep = CaseReport::default();
